@@ -10,4 +10,4 @@ SPEC = Spec(pid='C06', coq_needs=['Base', 'Program', 'ProgramProofs', 'LayoutTie
                   scenario_tie('label_regions', gen_label_scenario, 100, 2000),
                   layout_scenario_tie('label_lines', gen_label_scenario, 100, 2000),
                   fault_sweep_tie(['undef_ref', 'register_ref', 'local_no_region', 'dup_label', 'keyword_label', 'cross_region', 'cross_file',
-                                   'includer_file_label', 'const_fwd'])])
+                                   'includer_file_label', 'const_fwd', 'register_label_other_case'], per_kind_quick=6)])
